@@ -17,6 +17,10 @@
 (*   r2     "none" | "proper" (opposite strand) | "same" (same strand as R1; chic rejects it)     *)
 (*          | "unmapped" | "intercontig" (mate elsewhere; irrelevant for the site)                *)
 (*   contig name of the contig R1 maps to (part of the dedup key)                                 *)
+(*   mx     the MX tag of the reads (demultiplexing strategy short name) as a sequence of          *)
+(*          characters, <<>> = no tag. The layout `kind` is the GROUND TRUTH (does the registered  *)
+(*          strategy remove the ligated T: sequenceCapture starts one base behind barcode+UMI);   *)
+(*          the code decides by MX.startswith('scCHIC') (chic.py:102, scchic.py:76)               *)
 (*   radius assignment_radius handed to CHICFragment (0: key carries the coordinate; > 0: the     *)
 (*          key is (strand, contig, cell) and `==` compares the distance)                          *)
 (*   opts   check_motif, allow_cycle_shift, no_cigar (no_umi_cigar_processing), invert_strand     *)
@@ -114,7 +118,17 @@ AlignedAnchorSite(s) == IF s.rev THEN TrueSite(s) - s.clip ELSE TrueSite(s) + s.
 OkSites(s) == IF s.opts.no_cigar /\ s.clip > 0 THEN {TrueSite(s), AlignedAnchorSite(s)} ELSE {TrueSite(s)}
 TrueStrand(s) == s.rev # s.opts.invert_strand            \* RS: TRUE = reverse
 (* the statement is silent about non-CATG reads when the motif check is disabled and about same-strand mates *)
+MX_scCHIC384C8U3   == <<"s","c","C","H","I","C","3","8","4","C","8","U","3">>
+MX_scCHIC384C8U3l  == MX_scCHIC384C8U3 \o <<"l">>
+MX_scCHIC384C8U3se == MX_scCHIC384C8U3 \o <<"s","e">>
+MX_TCHIC           == <<"T","C","H","I","C">>
+MX_NLAIII384C8U3   == <<"N","L","A","I","I","I","3","8","4","C","8","U","3">>
+ScChicPrefix(mx) == Len(mx) >= 6 /\ SubSeq(mx, 1, 6) = <<"s","c","C","H","I","C">>
+(* the documented rule (MX starts with scCHIC <=> the T was removed) agrees with what the strategy really does; where it   *)
+(* does not (TCHIC removes the T but is not named scCHIC..), the observation is reported as a NOTE, not judged              *)
+LayoutRuleAgrees(s) == (s.kind = "trimmed") = ScChicPrefix(s.mx)
 InScope(s) == /\ s.proto = "nla"  => (s.opts.check_motif \/ s.kind = "ok")
+              /\ s.proto = "chic" => LayoutRuleAgrees(s)
               /\ s.kind = "outside" => (s.opts.check_motif /\ s.clip = 0)   \* no_overhang scans from the ALIGNED read end
               /\ s.proto = "chic" => s.r2 # "same"
 MustAccept(s) == s.proto = "chic" \/ s.kind \in {"ok", "outside"} \/ (s.kind = "lost" /\ s.opts.allow_cycle_shift)
@@ -168,6 +182,7 @@ MirrorVerdict(s, oa, ob) ==
 Companion(s) == [s EXCEPT !.clip  = (s.clip + 3) % 7,
                           !.clip3 = IF s.clip3 = 0 THEN 2 ELSE 0,
                           !.kind  = IF s.kind = "trimmed" THEN "untrimmed" ELSE IF s.kind = "untrimmed" THEN "trimmed" ELSE s.kind,
+                          !.mx    = IF s.kind = "trimmed" THEN MX_NLAIII384C8U3 ELSE IF s.kind = "untrimmed" THEN MX_scCHIC384C8U3 ELSE s.mx,
                           !.r2    = IF s.r2 = "none" THEN "proper" ELSE IF s.r2 = "proper" THEN "none" ELSE s.r2]
 (* eqa / eqb: result of the code's own fragment equality between a read and its companion, in either orientation *)
 DedupVerdict(s, eqa, eqb) ==
@@ -252,7 +267,8 @@ ChicOpts == [check_motif : {TRUE}, allow_cycle_shift : {FALSE}, no_cigar : BOOLE
 
 MkR(proto, f, p, rv, k, c, c3, n, r2, o, rad) ==
     [proto |-> proto, L |-> 24, ref |-> IF proto = "nla" THEN RefAt(f[1], f[2], p) ELSE ModelRef(f[1], f[2]), p |-> p, rev |-> rv, kind |-> k.kind, mmpos |-> k.mmpos,
-     mmbase |-> k.mmbase, xbase |-> k.xbase, clip |-> c, clip3 |-> c3, n |-> n, r2 |-> r2, opts |-> o, sample |-> "c1", contig |-> "chr1", radius |-> rad]
+     mmbase |-> k.mmbase, xbase |-> k.xbase, clip |-> c, clip3 |-> c3, n |-> n, r2 |-> r2, opts |-> o, sample |-> "c1", contig |-> "chr1", radius |-> rad,
+     mx |-> IF k.kind = "trimmed" THEN MX_scCHIC384C8U3 ELSE MX_NLAIII384C8U3]
 Mk(proto, f, p, rv, k, c, c3, n, r2, o) == MkR(proto, f, p, rv, k, c, c3, n, r2, o, 0)
 (* the bounded scenario space, enumerated by Init (one initial state per well-formed scenario) *)
 ChoosesNla(s) == "nla" \in Protos /\
@@ -271,6 +287,12 @@ ChoosesExtra(s) ==
             s = Mk("nla", f, 6, FALSE, [kind |-> "outside", mmpos |-> g, mmbase |-> "A", xbase |-> "A"], c, c3, n, r2, o)
     \/ "chic" \in Protos /\ \E f \in Flanks, rv \in BOOLEAN, k \in ChicKinds, c \in {0, 1, 6}, n \in ReadLens, r2 \in {"none", "proper"}, o \in ChicOpts :
             s = MkR("chic", f, 11, rv, k, c, 0, n, r2, o, 2)
+    \* other registered strategy names: single-end / no-primer scCHIC profiles, no MX tag at all, and TCHIC (removes the T
+    \* but is not named scCHIC*: LayoutRuleAgrees is false, modelled and replayed but not judged)
+    \/ "chic" \in Protos /\ \E f \in Flanks, rv \in BOOLEAN, c \in {0, 2}, n \in ReadLens, o \in ChicOpts,
+                             km \in { <<"trimmed", MX_scCHIC384C8U3se>>, <<"trimmed", MX_scCHIC384C8U3l>>, <<"trimmed", MX_TCHIC>>,
+                                       <<"untrimmed", <<>> >> } :
+            s = [Mk("chic", f, 11, rv, [kind |-> km[1], mmpos |-> 0, mmbase |-> "A", xbase |-> "A"], c, 0, n, "none", o) EXCEPT !.mx = km[2]]
 ChoosesChic(s) == "chic" \in Protos /\
     \E f \in Flanks, p \in {11, 12}, rv \in BOOLEAN, k \in ChicKinds, c \in 0 .. MaxClip, c3 \in Clip3s, n \in ReadLens,
        r2 \in {"none", "proper", "same"}, o \in ChicOpts : s = Mk("chic", f, p, rv, k, c, c3, n, r2, o)
@@ -336,7 +358,7 @@ ChicRejectOrientation(i) ==
     /\ UNCHANGED scn
 ChicSetSite(i) ==
     /\ Turn(i) /\ pc[i] = "inited" /\ Scn(i).proto = "chic" /\ Scn(i).r2 # "same"
-    /\ LET r == frag[i].read  o == Scn(i).opts  pos == ChicPos(r, o, Scn(i).kind = "trimmed")
+    /\ LET r == frag[i].read  o == Scn(i).opts  pos == ChicPos(r, o, ScChicPrefix(Scn(i).mx))   \* chic.py:102 is_trimmed
            ss == r.rev # o.invert_strand IN
        frag' = [frag EXCEPT ![i] = [@ EXCEPT !.found = TRUE, !.has_ds = TRUE, !.ds = pos, !.has_rs = TRUE, !.rs = ss,
                                              !.strand = ss, !.has_loc = TRUE, !.loc = pos, !.css = ss]]
